@@ -24,6 +24,9 @@ pub struct ElfSpec {
     pub data_pages: usize,
     /// an additional, EMPTY PT_NOTE segment placed before the real one (well-formed: p_filesz == 0)
     pub empty_first_note: bool,
+    /// .text starts this many bytes into its page (0: page aligned): the first page of the section
+    /// then crosses a file-page boundary
+    pub text_skew: usize,
 }
 
 impl ElfSpec {
@@ -42,6 +45,7 @@ impl ElfSpec {
             vaddr_bias: 0,
             data_pages: 1,
             empty_first_note: rng.chance(1, 4),
+            text_skew: *rng.pick(&[0usize, 0, 0, 0, 0x40, 0x34, 0x800, 0xfff, 0xff0, 1]),
         }
     }
 }
@@ -126,7 +130,7 @@ pub fn build(spec: &ElfSpec) -> Built {
     }
     dynstr.extend_from_slice(b"trailing\0");
     let text_off = 0x1000usize;
-    let text_pages = std::cmp::max(1, spec.text.len().div_ceil(0x1000));
+    let text_pages = std::cmp::max(1, (spec.text_skew + spec.text.len()).div_ceil(0x1000));
     let data_off = text_off + text_pages * 0x1000;
     let data_len = spec.data_pages * 0x1000;
     let tail_off = data_off + data_len; // unloaded: section notes, shstrtab, section headers
@@ -242,7 +246,7 @@ pub fn build(spec: &ElfSpec) -> Built {
     o.pad_to(dynstr_off);
     o.b.extend_from_slice(&dynstr);
     assert!(o.b.len() <= text_off);
-    o.pad_to(text_off);
+    o.pad_to(text_off + spec.text_skew);
     o.b.extend_from_slice(&spec.text);
     o.pad_to(data_off);
     // data: recognisable pattern
@@ -259,7 +263,7 @@ pub fn build(spec: &ElfSpec) -> Built {
         if spec.section_table {
             let mut secs: Vec<(u32, u32, u64, u64, u64, u64, u32, u64)> = Vec::new(); // name,type,flags,addr,off,size,link,addralign
             secs.push((0, 0, 0, 0, 0, 0, 0, 0));
-            secs.push((n_text, 1, 2 | 4, text_off as u64 + bias, text_off as u64, spec.text.len() as u64, 0, 16));
+            secs.push((n_text, 1, 2 | 4, (text_off + spec.text_skew) as u64 + bias, (text_off + spec.text_skew) as u64, spec.text.len() as u64, 0, 16));
             if let Some(n) = &secnote {
                 secs.push((n_note, 7, 0, 0, secnote_off as u64, n.len() as u64, 0, 4));
             } else if let Some(n) = &note {
